@@ -997,6 +997,74 @@ theorem code_series_exponents_inconsistent :
     codeExpQ.b ≠ 1852 / 1000 ∧ codeExpQ.a ≠ 4871 / 1000 := by
   simp only [codeExpQ]; norm_num
 
+/-! #### the two formulas as they stand in the source (Gen.seriesMX / Gen.parallelMX, regenerated by ast on every run) -/
+
+/-- the literals of the source as elements of any number type -/
+def srcExp {α : Type} (litv : Nat → Nat → α) : MergeExp α := { a := litv 487 100, b := litv 37 20, e := litv 27 50, c := litv 263 100 }
+
+section source
+variable {α : Type} [Add α] [Sub α] [Mul α] [Div α] [Neg α] (pw : α → α → α) (litv : Nat → Nat → α) (env : String → α)
+
+/-- **`props['roughness']` of `_series_merge_properties` IS `seriesRough`** (the function the equivalence theorems are about), with the
+exponents 4.87, 1.85, 0.54 and the dominant pipe's diameter, for every number type, power function and pipe data -/
+theorem series_rough_is_source :
+    Gen.seriesMX.rough.eval pw litv env
+      = seriesRough pw (srcExp litv) (env "pipe0.length") (env "pipe0.diameter") (env "pipe0.roughness")
+          (env "pipe1.length") (env "pipe1.diameter") (env "pipe1.roughness") (env "dominant.diameter") := rfl
+
+/-- **`props['roughness']` of `_parallel_merge_properties` IS `parallelRough`** with the exponents 0.54, 2.63 and the dominant
+pipe's length and diameter -/
+theorem parallel_rough_is_source :
+    Gen.parallelMX.rough.eval pw litv env
+      = parallelRough pw (srcExp litv) (env "pipe0.length") (env "pipe0.diameter") (env "pipe0.roughness")
+          (env "pipe1.length") (env "pipe1.diameter") (env "pipe1.roughness") (env "dominant.length") (env "dominant.diameter") := rfl
+
+/-- length, diameter, minor loss and status of the merged pipe as the source sets them -/
+theorem merge_props_are_source :
+    Gen.seriesMX.length.eval pw litv env = env "pipe0.length" + env "pipe1.length" ∧
+    Gen.seriesMX.diam.eval pw litv env = env "dominant.diameter" ∧ Gen.seriesMX.minor.eval pw litv env = env "dominant.minor_loss" ∧
+    Gen.seriesMX.status = "dominant_pipe.status" ∧
+    Gen.parallelMX.length.eval pw litv env = env "dominant.length" ∧
+    Gen.parallelMX.diam.eval pw litv env = env "dominant.diameter" ∧ Gen.parallelMX.minor.eval pw litv env = env "dominant.minor_loss" ∧
+    Gen.parallelMX.status = "dominant_pipe.status" := ⟨rfl, rfl, rfl, rfl, rfl, rfl, rfl, rfl⟩
+
+end source
+
+/-- the source's literals are the `codeExpQ` of `code_series_exponents_inconsistent` -/
+theorem srcExp_rat : srcExp (fun n d => (n : Rat) / d) = codeExpQ := by
+  simp only [srcExp, codeExpQ]; norm_num
+
+/-- **parallel merge as written in the source, over the reals**: the merged pipe carries exactly the sum of the two flows at every
+head loss (Hazen-Williams flow form `q = κ·C·D^2.63·(h/L)^0.54`), for all positive pipe data -/
+theorem parallel_merge_source_exact (env : String → ℝ) (κ ψ : ℝ)
+    (hL0 : 0 < env "pipe0.length") (hL1 : 0 < env "pipe1.length") (hL : 0 < env "dominant.length") (hD : 0 < env "dominant.diameter") :
+    let x := srcExp (fun n d => (n : ℝ) / d)
+    let pw := fun a b : ℝ => a ^ b
+    κ * hwCond pw x (env "dominant.length") (env "dominant.diameter") (Gen.parallelMX.rough.eval pw (fun n d => (n : ℝ) / d) env) * ψ
+      = κ * hwCond pw x (env "pipe0.length") (env "pipe0.diameter") (env "pipe0.roughness") * ψ
+        + κ * hwCond pw x (env "pipe1.length") (env "pipe1.diameter") (env "pipe1.roughness") * ψ := by
+  intro x pw
+  rw [parallel_rough_is_source]
+  exact parallel_merge_equal_flow pw x _ _ _ _ _ _ powLaws_real _ _ κ ψ hL0 hL1 hL hD
+
+/-- **series merge as written in the source, over the reals**: the merged resistance is `A · S^0.999 / A^0.999` (`A = L/D^4.87`,
+`S` = sum of the two resistances), NOT `S`: exact only if `0.54 · 1.85` were 1 (`code_series_exponents_inconsistent`) -/
+theorem series_merge_source_general (env : String → ℝ)
+    (hL0 : 0 < env "pipe0.length") (hD0 : 0 < env "pipe0.diameter") (hC0 : 0 < env "pipe0.roughness")
+    (hL1 : 0 < env "pipe1.length") (hD1 : 0 < env "pipe1.diameter") (hC1 : 0 < env "pipe1.roughness") (hD : 0 < env "dominant.diameter") :
+    let x := srcExp (fun n d => (n : ℝ) / d)
+    let pw := fun a b : ℝ => a ^ b
+    let A := (env "pipe0.length" + env "pipe1.length") / pw (env "dominant.diameter") x.a
+    let S := hwRes pw x (env "pipe0.length") (env "pipe0.diameter") (env "pipe0.roughness")
+              + hwRes pw x (env "pipe1.length") (env "pipe1.diameter") (env "pipe1.roughness")
+    hwRes pw x (env "pipe0.length" + env "pipe1.length") (env "dominant.diameter") (Gen.seriesMX.rough.eval pw (fun n d => (n : ℝ) / d) env)
+      = A * pw S (x.e * x.b) / pw A (x.e * x.b) ∧ x.e * x.b = 999 / 1000 := by
+  intro x pw A S
+  refine ⟨?_, ?_⟩
+  · rw [series_rough_is_source]
+    exact series_merge_resistance_general pw x _ _ _ _ _ _ _ powLaws_real hL0 hD0 hC0 hL1 hD1 hC1 hD
+  · simp only [x, srcExp]; norm_num
+
 /-! #### what a series merge does NOT keep (documented: "minor loss and pipe status of the merged pipe are set equal to [those of]
 the pipe selected for maximum diameter") -/
 
